@@ -225,7 +225,13 @@ impl<R: Read> LineProcessor<R> {
     pub fn count_lines(&mut self) -> Result<usize> {
         let mut count = 0;
         while self.read_next_line()? {
-            if !self.config.skip_empty_lines || !self.line_buffer.trim().is_empty() {
+            // Count exactly the lines process_lines() would deliver
+            let line = if self.config.trim_whitespace {
+                self.line_buffer.trim()
+            } else {
+                &self.line_buffer
+            };
+            if !self.config.skip_empty_lines || !line.is_empty() {
                 count += 1;
             }
         }
@@ -409,11 +415,9 @@ impl LineSplitter {
             }
         }
 
-        // Add the last field
-        if start < line.len() {
-            if let Ok(field) = std::str::from_utf8(&line.as_bytes()[start..]) {
-                self.buffer.push(field.to_string());
-            }
+        // Add the last field (possibly empty, as str::split does)
+        if let Ok(field) = std::str::from_utf8(&line.as_bytes()[start..]) {
+            self.buffer.push(field.to_string());
         }
     }
 }
